@@ -1,6 +1,84 @@
-(* C03 - valid flat Parquet files from any writer decode to exactly what they encode.  Statements only.
-   (first cut: theorems are added as the proofs land; see notes/C03.md)                               *)
-From Coq Require Import NArith ZArith List Bool.
-From Pq Require Import Base.Bytes Format.Phys Format.Meta Format.Page Format.File Format.Enc.
+(* C03 - valid flat Parquet files from any writer decode to exactly what they encode.
+   Statements only (proofs in theories/Proofs/).
+
+   The files of the C03 tie are produced by the specification-level encoder Format/Enc.v from layout
+   descriptions; what they "encode" is the denotation `table_of`.  The theorems below are the layers of
+   spec_roundtrip that make this encoder/decoder pair a verified reference (same lemmas as C02 group B,
+   restated here because C03's oracle depends on them), the refusal of encodings outside the model by
+   the specification decoder, and a whole-file instance evaluated in the kernel.
+
+   FULL statement aimed at (DESIGN section 6), NOT yet proved:
+     C03_fp_read_spec : supported l -> fp_read false (enc_file l t) = Some (canon t)
+   where fp_read is the impl model of core.read_col / read_data_page / read_data_page_v2 (Impl/RPages.v).
+   Missing: the impl model of the reader's page logic and its refinement to the specification decoder;
+   until then the reader is tied to the specification only by the per-run oracle (harness/props/C03.py:
+   fastparquet's result = table_of on every generated file).                                        *)
+From Coq Require Import String.
+From Coq Require Import NArith ZArith List Bool Arith.
+From Pq Require Import Base.Bytes Base.ListX Codec.Hybrid Thrift.Compact Format.Phys Format.Meta Format.Page
+  Format.ChunkLayout Format.File Format.Enc
+  Proofs.HybridProofs Proofs.FormatCodecProofs Proofs.FormatPageProofs Proofs.FormatChunkProofs.
 Import ListNotations.
+Open Scope list_scope.
 Open Scope N_scope.
+
+Theorem C03_spec_page_roundtrip_partial :
+  forall (compress : Z -> bytes -> bytes) (decompress : Z -> N -> bytes -> option bytes),
+  (forall codec b, decompress codec (lenN b) (compress codec b) = Some b) ->
+  forall strict cd codec dict it c,
+  item_wf cd it -> item_content cd dict it = Some c ->
+  let hp := enc_item compress cd codec it in
+  dec_page decompress strict cd codec dict (fst hp) (snd hp) = ROk c.
+Proof. exact item_roundtrip. Qed.
+Print Assumptions C03_spec_page_roundtrip_partial.
+
+Theorem C03_spec_chunk_roundtrip_partial :
+  forall (compress : Z -> bytes -> bytes) (decompress : Z -> N -> bytes -> option bytes),
+  (forall codec b, decompress codec (lenN b) (compress codec b) = Some b) ->
+  forall strict cd codec its clock dict pages cells nulls contents,
+  Forall (item_wf cd) its ->
+  Forall (fun it => phdr_wf (fst (enc_item compress cd codec it)) = true) its ->
+  items_contents cd dict its = Some contents ->
+  (length (concat (map (item_bytes compress cd codec) its)) <= length clock)%nat ->
+  scan_pages decompress clock strict cd codec dict (concat (map (item_bytes compress cd codec) its)) pages cells nulls
+  = ROk (rev pages ++ map (fun it => summary_of (enc_item compress cd codec it)) its,
+         rev cells ++ concat (map content_cells contents),
+         nulls + fold_right N.add 0 (map content_nulls contents)).
+Proof. exact scan_pages_roundtrip. Qed.
+Print Assumptions C03_spec_chunk_roundtrip_partial.
+
+(* the specification decoder never returns values for the value encodings outside the model: it says
+   "unsupported" (DELTA_LENGTH_BYTE_ARRAY 6, DELTA_BYTE_ARRAY 7, BYTE_STREAM_SPLIT 9) whatever the bytes *)
+Theorem C03_spec_unsupported_refused : forall strict cd dict enc n b,
+  (enc = 6 \/ enc = 7 \/ enc = 9)%Z ->
+  exists why, dec_values strict cd dict enc n b = RUns why.
+Proof.
+  intros strict cd dict enc n b [E|[E|E]]; subst; eexists; reflexivity.
+Qed.
+Print Assumptions C03_spec_unsupported_refused.
+
+(* whole file in the kernel: three pages over two row groups, optional INT64 column, dictionary with a
+   second dictionary page, fallback to PLAIN, a v2 page with NULLs *)
+Definition ex3 : lfile :=
+  {| l_leaves := [ {| ll_name := [99]; ll_type := INT64; ll_tlen := 0; ll_optional := true; ll_conv := None; ll_logical := None |} ];
+     l_rgs := [ [ {| lc_codec := 0%Z; lc_stats := true;
+                     lc_items := [ LDict 2%Z [VNum 5; VNum 18446744073709551615];
+                                   LData {| lp_v2 := false; lp_nvals := 4; lp_def := [BP [1; 0; 1; 1]];
+                                            lp_store := SDict 2%Z 1 [BP [1; 0; 1]]; lp_iscomp := None; lp_trail := [0; 0] |};
+                                   LDict 0%Z [VNum 9];
+                                   LData {| lp_v2 := true; lp_nvals := 2; lp_def := [RLE 2 1];
+                                            lp_store := SDict 8%Z 0 [RLE 2 0]; lp_iscomp := None; lp_trail := [] |} ] |} ];
+                [ {| lc_codec := 0%Z; lc_stats := false;
+                     lc_items := [ LData {| lp_v2 := true; lp_nvals := 3; lp_def := [RLE 1 0; RLE 2 1];
+                                            lp_store := SPlain [VNum 1; VNum 2]; lp_iscomp := Some true; lp_trail := [] |} ] |} ] ];
+     l_created_by := Some [120] |}.
+Definition id_c (_ : Z) (b : bytes) : bytes := b.
+Definition id_d (_ : Z) (_ : N) (b : bytes) : option bytes := Some b.
+
+Example C03_nonvacuous :
+  option_map snd (table_of ex3)
+    = Some [[[Some (VNum 18446744073709551615); None; Some (VNum 5); Some (VNum 18446744073709551615); Some (VNum 9); Some (VNum 9)]];
+            [[None; Some (VNum 1); Some (VNum 2)]]]
+  /\ option_map snd (match dec_file id_d true (enc_file id_c ex3) with ROk r => Some r | _ => None end)
+     = option_map snd (table_of ex3).
+Proof. split; vm_compute; reflexivity. Qed.
